@@ -9,6 +9,13 @@ Stage C  for every registered class: real `cls.to_numpy(msgs)` vs the Lean evalu
          `removeNan` applied to the real dictionary.
 Stage D  the property statement directly against the real output (independent of table and model).
 
+Sequences  (`run_sequences`) data dictionaries of MessageData entries driven through add_message / to_numpy (every flag
+         combination, per entry and through DataLoader.to_numpy) / changes of the message list (rebinding, slice assignment,
+         in-place changes of a message, DataLoader.time_align_data INSERT/DROP against other entries) / more messages / to_numpy
+         again: after EVERY conversion the members must describe the list the entry held (stage D), and each call is compared
+         with the Lean model of the whole call, `mdToNumpy` ("already converted?" test, update, removal), from the real members
+         before it (stage C).
+
 Inputs: random objects with pairwise distinct values (`cases`), and for every integer-valued field the boundary values of its
 wire type (`wire_cases`; the range of a field is what survives pack()/unpack()), as attributes and as produced by unpack().
 """
@@ -25,6 +32,7 @@ MODULES = ['FeVerif.Props.C16']
 
 SIG_TRIM = 'C16/CalibrationStatus/leading-unknown-trimmed'
 SIG_P1FILL = 'C16/MeasurementDetails/p1_time-nan-filled-from-measurement_time'
+SIG_MIXED_TS = 'C16/generic-path/timestamp-field-holding-plain-float-left-unconverted'
 
 
 # ---- encoding of values ---------------------------------------------------------------------------------------------
@@ -399,6 +407,19 @@ def leading_unknown(case):
     return k
 
 
+def unconverted_timestamps(msgs, key, got):
+    """the field is a Timestamp in some messages and a plain number in others, and the output is the array of these objects
+    themselves (dtype=object): the generic path converts a Timestamp column only when its first value is a Timestamp"""
+    from fusion_engine_client.messages.timestamp import Timestamp
+    rv = [field_value(m, key)[1] for m in msgs]
+    if not (isinstance(got, np.ndarray) and got.dtype.kind == 'O' and got.shape == (len(rv),)):
+        return False
+    if not (any(isinstance(v, Timestamp) for v in rv) and any(isinstance(v, (float, np.floating)) for v in rv)):
+        return False
+    return all((g is v) if isinstance(v, Timestamp) else (isinstance(v, (float, np.floating)) and (g == v or (g != g and v != v)))
+               for g, v in zip(got, rv))
+
+
 def oracle_to_numpy(ctx, case, real):
     """Stage D on `cls.to_numpy(msgs)`: the property statement itself."""
     cls, msgs = case.cls, case.msgs
@@ -455,6 +476,11 @@ def oracle_to_numpy(ctx, case, real):
             continue
         # which positions differ?
         bad = [i for i in range(n) if got.shape[0] != n or not same_numbers(got[i], exp[i])]
+        if unconverted_timestamps(msgs, key, got):
+            ctx.violation(SIG_MIXED_TS, '%s.to_numpy(%d messages): field %r is a Timestamp in some messages and a plain float in message 0 '
+                          '(as DataLoader.time_align_data(INSERT) leaves it in the messages it inserts): %r is an array of objects, the '
+                          'Timestamps are not converted to seconds' % (name, n, key, key), case.replay({'key': key}))
+            continue
         if key == 'p1_time' and hasattr(msgs[0], 'details') or (name == 'MeasurementDetails' and key == 'p1_time'):
             from fusion_engine_client.messages.measurement_details import SystemTimeSource
             det = [m if name == 'MeasurementDetails' else m.details for m in msgs]
@@ -465,7 +491,7 @@ def oracle_to_numpy(ctx, case, real):
                 continue
         ctx.violation('C16/%s/%s-differs-from-field' % (name, key),
                       '%s.to_numpy(%d messages): %r at position %s is %r, field %r of that message is %r'
-                      % (name, n, key, bad[:1], got[bad[0]].tolist() if bad and got.shape[0] == n else got.shape,
+                      % (name, n, key, bad[:1], np.asarray(got[bad[0]]).tolist() if bad and got.shape[0] == n else got.shape,
                          key, np.asarray(exp[bad[0]]).tolist() if bad else None), case.replay({'key': key}))
 
 
@@ -487,6 +513,8 @@ def correspond_to_numpy(ctx, case, real, answer, opaque_keys):
             opaque_keys.add('%s.%s' % (case.owner, key))
             continue
         rt = arr_text(out)
+        if mt == '!' and rt is None and isinstance(out, np.ndarray) and out.dtype.kind == 'O':
+            continue                      # the model's `bad` = "raises or builds a non-numeric array": an array of objects is one
         if rt != mt:
             ctx.disagree('%s.to_numpy: %r is %s, the table evaluates to %s' % (name, key, str(rt)[:120], mt[:120]),
                          case.replay({'key': key}))
@@ -890,6 +918,24 @@ def cases(ctx, classes, reps, maxn):
                     yield make_case(ctx, cls, owner, n, rng.choice(subs), 'stages', stages=list(combo))
 
 
+def tonumpy_request(classes, ci, case):
+    """the driver request evaluating the extracted table of the class (or the generic path) on the messages of the case"""
+    if ci.generic:
+        maps = [msg_map(m) for m in case.msgs]
+        for mp in maps:      # generic path looks at top-level attributes only, sorted
+            for k in [k for k in mp if '.' in k]:
+                del mp[k]
+        maps = [dict(sorted(mp.items())) for mp in maps]
+        dflt = ','.join(sorted(vars(case.cls()).keys())) or '-'
+        return 'np_generic %s %s' % (dflt, msgs_text(maps))
+    paths = [e.path for e in nx.flat_entries(classes, ci) if e.path]
+    paths += [q for e in nx.flat_entries(classes, ci) if e.kind[0] == 'fillNaN' for q in (e.kind[1], e.kind[2])]
+    if ci.prelude[0] == 'trimLeadingEq':
+        paths.append(ci.prelude[1])
+    maps = [msg_map(m, paths, lists=True) for m in case.msgs]
+    return 'np_tonumpy %s %s' % (case.owner, msgs_text(maps))
+
+
 def judge_all(ctx, classes, batch):
     """batch: list of Case.  Runs the real code, asks the driver, applies correspondence + oracle."""
     by_name = {c.name: c for c in classes}
@@ -907,21 +953,7 @@ def judge_all(ctx, classes, batch):
         if ci is None:
             ctx.disagree('no extracted table for %s (to_numpy of %s)' % (case.cls.__name__, case.owner), case.replay())
             continue
-        if ci.generic:
-            maps = [msg_map(m) for m in case.msgs]
-            for mp in maps:      # generic path looks at top-level attributes only, sorted
-                for k in [k for k in mp if '.' in k]:
-                    del mp[k]
-            maps = [dict(sorted(mp.items())) for mp in maps]
-            dflt = ','.join(sorted(vars(case.cls()).keys())) or '-'
-            lines.append('np_generic %s %s' % (dflt, msgs_text(maps)))
-        else:
-            paths = [e.path for e in nx.flat_entries(classes, ci) if e.path]
-            paths += [q for e in nx.flat_entries(classes, ci) if e.kind[0] == 'fillNaN' for q in (e.kind[1], e.kind[2])]
-            if ci.prelude[0] == 'trimLeadingEq':
-                paths.append(ci.prelude[1])
-            maps = [msg_map(m, paths, lists=True) for m in case.msgs]
-            lines.append('np_tonumpy %s %s' % (case.owner, msgs_text(maps)))
+        lines.append(tonumpy_request(classes, ci, case))
         item = {'case': case, 'real': real, 'tn': len(lines) - 1, 'md': []}
         if hasattr(case.cls, 'MESSAGE_TYPE') and 'p1_time' in real:
             for remove in (True, False):
@@ -963,6 +995,670 @@ def get_path_safe(m, name):
         return getattr(m, name)
     except AttributeError:
         return float('nan')
+
+
+# ---- operation sequences on MessageData -----------------------------------------------------------------------------------
+# A script works on a data dictionary {message type: MessageData} of one to three entries and applies a sequence of
+#   add      add_message() of pool messages (with / without message_bytes and message_index)
+#   numpy    MessageData.to_numpy(...) of one entry, or DataLoader.to_numpy(data, ...) of all, with any flag combination
+#   assign   entry.messages = [pool messages]               (a new list: deletion, insertion, replacement, reordering, slicing)
+#   slice    entry.messages[a:b] = [pool messages]          (the same list object changed in place)
+#   mutate   the non-time fields of one message of the list overwritten in place
+#   set_p1   the P1 time of one message of the list overwritten in place
+#   align    DataLoader.time_align_data(data, INSERT | DROP, message_types)
+# After EVERY conversion the numpy members of every converted entry must describe the list the entry held when the conversion
+# was requested (if it holds no messages any more - keep_messages=False - the members must stay what they were).
+SEQ_BASE_ATTRS = ('message_type', 'message_class', 'params', 'messages', 'message_bytes', 'message_index', 'num_messages')
+SIG_SEQ_STALE = 'C16/MessageData/sequence/same-count-same-end-times/arrays-hold-other-messages'
+
+
+class Spy:
+    """stands in for MessageData.message_class during one to_numpy() call: records the lists handed to the class conversion"""
+
+    def __init__(self, cls):
+        self.cls = cls
+        self.calls = 0
+
+    def to_numpy(self, messages):
+        self.calls += 1
+        return self.cls.to_numpy(messages)
+
+    def __call__(self, *a, **k):
+        return self.cls(*a, **k)
+
+
+def p1_of(m):
+    """float(m.p1_time) as MessageData reads it; None: no such attribute"""
+    try:
+        return float(m.p1_time)
+    except AttributeError:
+        return None
+
+
+def own_p1(m):
+    """the P1 time of the message wherever the class keeps it (for classifying what changed; NaN if there is none)"""
+    from fusion_engine_client.messages.measurement_details import MeasurementDetails
+    d = vars(m)
+    try:
+        if 'p1_time' in d:
+            return float(d['p1_time'])
+        if isinstance(d.get('details'), MeasurementDetails):
+            return float(d['details'].p1_time)
+    except (TypeError, ValueError):
+        pass
+    return float('nan')
+
+
+def seq_targets():
+    return [(c, o) for c, o in targets() if hasattr(c, 'MESSAGE_TYPE')]
+
+
+def alignable(cls):
+    return 'p1_time' in vars(cls())
+
+
+class Script:
+    def __init__(self, entries, ops, how):
+        self.entries = entries        # [(cls, owner, [message objects])]
+        self.ops = ops
+        self.how = how
+        self.encoded = [[encode_obj(m) for m in pool] for _, _, pool in entries]      # before any in-place change
+
+    def replay(self, upto, extra=None):
+        r = {'kind': 'sequence', 'how': self.how,
+             'entries': [{'class': c.__name__, 'to_numpy_of': o, 'pool': enc} for (c, o, _), enc in zip(self.entries, self.encoded)],
+             'ops': self.ops[:upto + 1]}
+        if extra:
+            r.update(extra)
+        return r
+
+
+def numeric_members(md):
+    """the members of a MessageData the conversion can see or touch: numpy arrays and numbers (message_bytes / message_index
+    as the arrays np.array() makes of them), and the names declared time-independent"""
+    d = md.__dict__
+    res = {}
+    for k, v in d.items():
+        if k in ('message_type', 'message_class', 'params', 'messages', 'num_messages', '__metadata__'):
+            continue
+        if k == 'message_bytes':
+            v = np.array(v, dtype=np.uint64)
+        elif k == 'message_index':
+            v = np.array(v, dtype=int)
+        if isinstance(v, np.ndarray):
+            res[k] = v.copy()
+        elif isinstance(v, (bool, int, float, np.integer, np.floating, np.bool_)) and not isinstance(v, enum.Enum):
+            res[k] = v
+    return res
+
+
+def metadata_ntd(d):
+    md = d.get('__metadata__')
+    return list(md.get('not_time_dependent', [])) if isinstance(md, dict) else []
+
+
+def dict_text(items):
+    parts, skipped = [], set()
+    for key, v in items.items():
+        if key == '__metadata__':
+            continue
+        t = arr_text(v)
+        if t is None or t.startswith('x:') or (isinstance(v, np.ndarray) and v.size == 0 and v.ndim > 1) \
+                or (isinstance(v, np.ndarray) and v.ndim > 3) or any(c in key for c in ' =|,') \
+                or key in ('message_type', 'message_class', 'params', 'messages'):
+            # (the last four: a field of that name replaces the MessageData attribute and is exempt from the removal loop)
+            skipped.add(key)
+            continue
+        parts.append('%s=%s' % (key, t))
+    return '|'.join(parts) or '-', skipped
+
+
+def copy_fields(dst, src):
+    """overwrite every field of dst except its P1 time with (copies of) the values of src"""
+    import copy
+    from fusion_engine_client.messages.measurement_details import MeasurementDetails
+    for k, v in vars(src).items():
+        if k == 'p1_time':
+            continue
+        if isinstance(v, MeasurementDetails) and isinstance(vars(dst).get(k), MeasurementDetails):
+            for k2, v2 in vars(v).items():
+                if k2 != 'p1_time':
+                    setattr(getattr(dst, k), k2, copy.deepcopy(v2))
+        else:
+            setattr(dst, k, copy.deepcopy(v))
+
+
+def raising_entry(tb, states):
+    """the entry whose MessageData.to_numpy frame is on the traceback"""
+    mds = {id(st['md']): st for st in states}
+    found = None
+    while tb is not None:
+        slf = tb.tb_frame.f_locals.get('self')
+        if id(slf) in mds:
+            found = mds[id(slf)]
+        tb = tb.tb_next
+    return found
+
+
+def snapshot(msgs):
+    return [(id(m), json.dumps(encode_obj(m), sort_keys=True)) for m in msgs]
+
+
+def classify_change(st, D):
+    """what happened to the list since the numpy members were last seen to describe it (a description of the input only):
+    compared with the whole list of that time, and with the messages the members had an entry for (`eff`: the list without the
+    messages trimmed by the class and without the untimed ones if those were removed)"""
+    if st['snap'] is None:
+        return 'first-conversion'
+    now = st['now'] = snapshot(D)
+    if now == st['snap']:
+        return 'unchanged-list'
+    if len(now) != st['eff_len']:
+        return 'count-changed'
+    ends = (own_p1(D[0]), own_p1(D[-1])) if D else (float('nan'), float('nan'))
+    same = all(not np.isnan(a) and a == b for a, b in zip(ends, st['ends']))
+    return 'same-count-same-end-times' if same else 'same-count-end-times-changed'
+
+
+def expected_member(b, ntd_key, npos, mask):
+    """what a member must be after the conversion given the class conversion `b` of the current list: itself, or with the
+    untimed positions removed along its time axis"""
+    if not isinstance(b, np.ndarray) or ntd_key or mask is None:
+        return b
+    ax = time_axis(b, npos)
+    if ax is None:
+        return b
+    return np.compress(mask, b, axis=ax)
+
+
+def member_matches(a, exp):
+    if not isinstance(exp, np.ndarray):
+        if scalar_text(exp) is None or isinstance(exp, enum.Enum):
+            return 'ok'
+        return 'ok' if (scalar_text(a) is not None and same_numbers(a, exp)) else 'value'
+    if not isinstance(a, np.ndarray) or a.shape != exp.shape:
+        return 'shape'
+    if is_num_array(exp) and not same_numbers(a, exp):
+        return 'value'
+    return 'ok'
+
+
+def judge_step(ctx, classes, script, k, st, info, lines, plan):
+    """one converted entry after op k.  info: L (list before the call), pre (numeric members before), spy, remove, err"""
+    from fusion_engine_client.messages.measurement_details import MeasurementDetails   # noqa
+    cls, owner, md = st['cls'], st['owner'], st['md']
+    name = cls.__name__
+    L, pre, remove = info['L'], info['pre'], info['remove']
+    ei = st['index']
+    # no messages left (keep_messages=False, or the list emptied): the members may stay what they were (there is nothing to convert
+    # from; they go on describing the list they were computed from), or be the conversion of the empty list
+    post = numeric_members(md) if info['err'] is None else {}
+    frozen = (len(L) == 0 and st['described'] is not None and info['err'] is None and
+              all(member_matches(post.get(key), b) == 'ok' for key, b in pre.items() if key not in ('message_bytes', 'message_index')))
+    D = L
+    st.pop('now', None)
+    change = 'messages-released' if frozen else classify_change(st, D)
+    ctx.count('seq_change_' + change)
+    ctx.count('seq_conversion_' + ('done' if info['spy'].calls else 'skipped'))
+    rp = script.replay(k, {'entry': ei, 'change_since_last_conversion': change})
+    case = Case(cls, owner, list(D), 'sequence')
+    if info['err'] is not None:
+        ref, rerr = run_real(case)
+        if rerr is None and info['err'].startswith('TypeError') and remove and unconverted_timestamps(case.msgs, 'p1_time', ref.get('p1_time')):
+            oracle_to_numpy(ctx, case, ref)      # reports the array of objects under its own signature
+            ctx.violation(SIG_MIXED_TS, 'MessageData(%s).to_numpy(remove_nan_times=True) after [%s] raised %s: p1_time is an array of '
+                          'objects (Timestamps mixed with plain floats)' % (name, ops_text(script, k), info['err']), rp)
+            return
+        ctx.violation('C16/MessageData/%s/to_numpy-raised' % name, 'MessageData(%s).to_numpy() raised %s after [%s] (%s, %d messages)'
+                      % (name, info['err'], ops_text(script, k), change, len(L)), rp)
+        return
+    post_ntd = metadata_ntd(md.__dict__)
+    ref, rerr = run_real(case)
+    if rerr is not None:
+        ctx.violation('C16/%s/to_numpy-raised' % name, '%s.to_numpy(%d messages) raised %s' % (name, len(D), rerr), case.replay())
+        return
+    if not frozen:
+        judge_members(ctx, script, k, st, info, case, ref, post, post_ntd, change, rp)
+    # correspondence: the extracted table on the current list, and the model of the whole call on the members before it
+    ci = {c.name: c for c in classes}.get(owner) if classes else None
+    if ci is not None and lines is not None:
+        lines.append(tonumpy_request(classes, ci, case))
+        tn = len(lines) - 1
+        cached, sk1 = dict_text(pre)
+        conv, sk2 = dict_text({k2: v for k2, v in ref.items()})
+        if 'p1_time' in sk1 | sk2:
+            # a time vector that is not a numeric array (SIG_MIXED_TS): the call is outside the model
+            ctx.count('seq_call_not_modelled_non_numeric_p1_time')
+            plan.append({'case': case, 'ref': ref, 'tn': tn, 'ms': None, 'rp': rp, 'name': name})
+            return
+        ends = [p1_of(D[0]), p1_of(D[-1])] if D else [None, None]
+        ntd = post_ntd if info['spy'].calls else metadata_ntd(ref)
+        lines.append('np_mdstep %d %s %d %s %s %s %s' % (1 if remove else 0, ','.join(ntd) or '-', len(D),
+                                                       '!' if ends[0] is None else fhex(ends[0]), '!' if ends[1] is None else fhex(ends[1]),
+                                                       cached, conv))
+        if not info['keep_bytes']:
+            sk1.add('message_bytes')       # emptied by the call (keep_message_bytes=False): outside the model
+        if not info['keep_index']:
+            sk1.add('message_index')
+        plan.append({'case': case, 'ref': ref, 'tn': tn, 'ms': len(lines) - 1, 'post': post, 'skipped': sk1 | sk2, 'rp': rp,
+                     'name': name, 'what': ops_text(script, k)})
+
+
+def judge_members(ctx, script, k, st, info, case, ref, post, post_ntd, change, rp):
+    """stage D for one conversion in a sequence: the class conversion of the current list against the fields (the statement
+    itself), then the members of the MessageData against that conversion"""
+    md, L, D, remove, name = st['md'], info['L'], case.msgs, info['remove'], case.cls.__name__
+    oracle_to_numpy(ctx, case, ref)
+    ntd = metadata_ntd(ref)
+    p1 = ref.get('p1_time')
+    npos = len(p1) if isinstance(p1, np.ndarray) and p1.ndim == 1 else len(D) - leading_unknown(case)
+    masks = [None]
+    if isinstance(p1, np.ndarray) and p1.ndim == 1 and p1.dtype.kind == 'f' and np.any(np.isnan(p1)):
+        # (whether a repeated call has to remove the untimed entries it was asked to remove is not part of the statement:
+        # both are accepted, but it must be the same for every member)
+        masks = [~np.isnan(p1), None] if remove else [None, ~np.isnan(p1)]
+    verdicts = []
+    for mask in masks:
+        bad = None
+        for key, b in ref.items():
+            if key == '__metadata__':
+                continue
+            exp = expected_member(b, key in ntd, npos, mask)
+            how = member_matches(md.__dict__.get(key), exp)
+            if how != 'ok':
+                bad = (key, how, exp)
+                break
+        verdicts.append(bad)
+        if bad is None:
+            break
+    if all(v is not None for v in verdicts):
+        # (not one entry per message only if that is so whichever way the untimed entries are treated)
+        shape_only = all(v[1] == 'shape' for v in verdicts)
+        key, how, exp = verdicts[0] if shape_only else next(v for v in verdicts if v[1] != 'shape')
+        a = md.__dict__.get(key)
+        kind = 'arrays-not-one-entry-per-message' if shape_only else 'arrays-hold-other-messages'
+        ctx.violation('C16/MessageData/sequence/%s/%s' % (change, kind),
+                      'MessageData(%s) after [%s]: the entry holds %d messages (%s since its members last described it) but %r %s'
+                      % (name, ops_text(script, k), len(L), change, key,
+                         ('has shape %s, expected %s' % (getattr(a, 'shape', None), getattr(exp, 'shape', None))) if how == 'shape'
+                         else 'does not hold the values of these messages (it is not the conversion of the current list)'), rp)
+    else:
+        mask = masks[len(verdicts) - 1]
+        eff = list(D)[len(D) - npos:] if npos <= len(D) else list(D)
+        if mask is not None and len(mask) == len(eff):
+            eff = [m for m, keep in zip(eff, mask) if keep]
+        st['described'] = list(D)
+        st['snap'] = st.pop('now', None) or snapshot(D)
+        st['eff_len'] = len(eff)
+        st['ends'] = (own_p1(eff[0]), own_p1(eff[-1])) if eff else (float('nan'), float('nan'))
+    # members left from an earlier conversion that the conversion of the current list does not produce any more
+    now_p1 = md.__dict__.get('p1_time')
+    if verdicts[-1] is None and isinstance(now_p1, np.ndarray) and now_p1.ndim == 1:
+        for key, a in post.items():
+            if key in ref or key in ('message_bytes', 'message_index') or key not in st['produced']:
+                continue
+            if isinstance(a, np.ndarray) and key not in post_ntd and time_axis(a, len(now_p1)) is None:
+                ctx.violation('C16/MessageData/sequence/member-of-earlier-conversion-kept',
+                              'MessageData(%s) after [%s]: %r (shape %s) was produced by an earlier conversion of %d messages, is not '
+                              'produced for the current %d messages (p1_time has %d entries), but is still a member'
+                              % (name, ops_text(script, k), key, a.shape, st['produced'][key], len(D), len(now_p1)), dict(rp, key=key))
+                break
+    if info['spy'].calls:
+        for key in ref:
+            st['produced'][key] = len(D)
+
+
+def ops_text(script, upto):
+    def one(op):
+        o = op['op']
+        e = 'e%d.' % op['entry'] if 'entry' in op else ''
+        if o == 'add':
+            return '%sadd(%d%s)' % (e, len(op['ids']), '' if op.get('meta') else ',no bytes/index')
+        if o == 'numpy':
+            f = ''.join(c for c, on in (('r', op['remove']), ('m', op['keep_messages']), ('b', op['keep_bytes']), ('i', op['keep_index'])) if on)
+            return ('%sto_numpy(%s)' % (e, f)) if op['via'] == 'entry' else 'DataLoader.to_numpy(%s)' % f
+        if o == 'assign':
+            return '%smessages=[%d]' % (e, len(op['ids']))
+        if o == 'slice':
+            return '%smessages[%d:%d]=[%d]' % (e, op['a'], op['b'], len(op['ids']))
+        if o == 'mutate':
+            return '%smessages[%d].fields=..' % (e, op['pos'])
+        if o == 'set_p1':
+            return '%smessages[%d].p1_time=..' % (e, op['pos'])
+        if o == 'align':
+            return 'time_align_data(%s%s)' % (op['mode'], '' if op.get('types') is None else ',types=%s' % op['types'])
+        return o
+    return ' ; '.join(one(op) for op in script.ops[:upto + 1])
+
+
+def run_script(ctx, classes, script, lines, plan):
+    import sys
+    import warnings
+    from fusion_engine_client.analysis.data_loader import MessageData, DataLoader, TimeAlignmentMode
+    data = {}
+    states = []
+    for i, (cls, owner, pool) in enumerate(script.entries):
+        md = MessageData(cls.MESSAGE_TYPE, None)
+        data[cls.MESSAGE_TYPE] = md
+        states.append({'index': i, 'cls': cls, 'owner': owner, 'pool': pool, 'md': md, 'described': None, 'snap': None,
+                       'ends': None, 'produced': {}, 'added': 0})
+    for k, op in enumerate(script.ops):
+        o = op['op']
+        st = states[op['entry']] if 'entry' in op else None
+        md = st['md'] if st else None
+        if o == 'add':
+            for i in op['ids']:
+                meta = op.get('meta') and isinstance(md.message_bytes, list) and isinstance(md.message_index, list)
+                if meta:
+                    md.add_message(st['pool'][i], message_bytes=24 + 8 * st['added'], message_index=st['added'])
+                else:
+                    md.add_message(st['pool'][i])
+                st['added'] += 1
+        elif o == 'assign':
+            md.messages = [st['pool'][i] for i in op['ids']]
+        elif o == 'slice':
+            md.messages[op['a']:op['b']] = [st['pool'][i] for i in op['ids']]
+        elif o == 'mutate':
+            if op['pos'] < len(md.messages):
+                copy_fields(md.messages[op['pos']], st['pool'][op['donor']])
+        elif o == 'set_p1':
+            if op['pos'] < len(md.messages):
+                set_p1(md.messages[op['pos']], from_fhex(op['value']))
+        elif o == 'align':
+            types = None if op.get('types') is None else [states[i]['cls'].MESSAGE_TYPE for i in op['types']]
+            with warnings.catch_warnings():
+                warnings.simplefilter('ignore')
+                try:
+                    DataLoader.time_align_data(data, TimeAlignmentMode[op['mode']], types)
+                    ctx.count('seq_align_' + op['mode'])
+                except Exception:     # noqa  (alignment is C15's subject; whatever lists it left are the current lists)
+                    ctx.count('seq_align_raised')
+        elif o == 'numpy':
+            conv = states if op['via'] == 'loader' else [st]
+            infos = {}
+            for s in conv:
+                spy = Spy(s['cls'])
+                infos[s['index']] = {'L': list(s['md'].messages), 'pre': numeric_members(s['md']), 'spy': spy,
+                                     'remove': op['remove'], 'err': None, 'keep_bytes': op['keep_bytes'], 'keep_index': op['keep_index']}
+                s['md'].message_class = spy
+            failed = None
+            with warnings.catch_warnings():
+                warnings.simplefilter('ignore')
+                try:
+                    kw = dict(remove_nan_times=op['remove'], keep_messages=op['keep_messages'],
+                              keep_message_bytes=op['keep_bytes'], keep_message_index=op['keep_index'])
+                    if op['via'] == 'loader':
+                        DataLoader.to_numpy(data, **kw)
+                    else:
+                        md.to_numpy(**kw)
+                except Exception as e:     # noqa
+                    failed = raising_entry(sys.exc_info()[2], conv) or conv[0]
+                    infos[failed['index']]['err'] = '%s: %s' % (type(e).__name__, e)
+            for s in conv:
+                s['md'].message_class = s['cls']
+            ctx.count('seq_numpy_via_' + op['via'])
+            if failed is not None:
+                judge_step(ctx, classes, script, k, failed, infos[failed['index']], lines, plan)
+                return
+            for s in conv:
+                judge_step(ctx, classes, script, k, s, infos[s['index']], lines, plan)
+                ctx.cov['traces_validated_against_impl'] += 1
+            ctx.case('seq %s %s' % ([e[0].__name__ for e in script.entries], json.dumps(script.ops[:k + 1], sort_keys=True)),
+                     nontrivial=any(len(infos[i]['L']) for i in infos))
+
+
+def flush_sequences(ctx, lines, plan):
+    """stage C for the collected steps"""
+    if not lines:
+        return
+    outs = ctx.driver(lines)
+    opaque_keys = ctx.cov.setdefault('opaque_keys_decided_by_running_only', [])
+    ok = set(opaque_keys)
+    for item in plan:
+        correspond_to_numpy(ctx, item['case'], item['ref'], outs[item['tn']], ok)
+        if item['ms'] is None:
+            continue
+        ans = outs[item['ms']]
+        if ans in ('unmodelled', 'bad-args', 'bad-op', 'raises'):
+            ctx.disagree('MessageData(%s).to_numpy() after [%s]: the model of the call answered %s' % (item['name'], item['what'], ans), item['rp'])
+            continue
+        model = parse_dict(ans)
+        for key, mt in model.items():
+            if key in item['skipped']:
+                continue
+            rt = arr_text(item['post'].get(key))
+            if rt != mt:
+                ctx.disagree('MessageData(%s).to_numpy() after [%s]: %r is %s, the model of the call gives %s'
+                             % (item['name'], item['what'], key, str(rt)[:100], mt[:100]), dict(item['rp'], key=key))
+                break
+    ctx.cov['opaque_keys_decided_by_running_only'] = sorted(ok)
+    del lines[:], plan[:]
+
+
+# ---- script generation ----
+def make_pool(ctx, cls, owner, size, grid, nan_prob, mixed_sources):
+    """`size` filled messages with pairwise distinct values; P1 times from the (sorted) grid in ascending order with random
+    gaps, a few invalid"""
+    from fusion_engine_client.messages.measurement_details import SystemTimeSource
+    rng = ctx.rng
+    dist = Distinct(rng)
+    enum_pos = {}
+    pool = []
+    for i in range(size):
+        m = fill(cls(), dist, rng, enum_pos)
+        set_p1(m, float('nan') if rng.random() < nan_prob else grid[i % len(grid)])
+        det = m if owner == 'MeasurementDetails' and not hasattr(m, 'details') else vars(m).get('details')
+        if det is not None and hasattr(det, 'measurement_time_source'):
+            # never P1_TIME with an invalid P1 time unless asked for: the documented fill-in has its own signature
+            srcs = [s for s in SystemTimeSource if mixed_sources or s != SystemTimeSource.P1_TIME]
+            det.measurement_time_source = rng.choice(srcs) if mixed_sources else srcs[i % len(srcs)] if rng.random() < 0.5 else srcs[0]
+        pool.append(m)
+    return pool
+
+
+def numpy_op(entry, remove=True, km=True, kb=True, ki=True, via='entry'):
+    return {'op': 'numpy', 'entry': entry, 'remove': remove, 'keep_messages': km, 'keep_bytes': kb, 'keep_index': ki, 'via': via}
+
+
+def interior_changes(n, fresh):
+    """[(name, ids)] : every kind of change of a list 0..n-1 (n >= 3), `fresh` = ids of unused pool messages"""
+    f = list(fresh)
+    mid = n // 2
+    return [
+        ('drop-interior', [i for i in range(n) if i != mid]),
+        ('drop-two-interior', [0] + list(range(3, n)) if n >= 4 else [0, n - 1]),
+        ('insert-interior', list(range(mid)) + f[:1] + list(range(mid, n))),
+        ('insert-two-interior', list(range(1)) + f[:1] + list(range(1, n - 1)) + f[1:2] + [n - 1]),
+        ('replace-interior', list(range(mid)) + f[:1] + list(range(mid + 1, n))),
+        ('swap-interior', [0] + list(reversed(range(1, n - 1))) + [n - 1]),
+        ('drop-first', list(range(1, n))),
+        ('drop-last', list(range(n - 1))),
+        ('replace-first', f[:1] + list(range(1, n))),
+        ('replace-last', list(range(n - 1)) + f[:1]),
+        ('append', list(range(n)) + f[:2]),
+        ('prepend', f[:1] + list(range(n))),
+        ('all-new', f[:n]),
+        ('all-new-shorter', f[:n - 1]),
+        ('empty', []),
+    ]
+
+
+def directed_scripts(ctx, cls, owner, partners):
+    """every kind of list change between two conversions x how the list is changed (rebinding, slice assignment, alignment
+    against other entries) x the flags of the conversions"""
+    rng = ctx.rng
+    n = rng.choice([3, 4, 5])
+    dist = Distinct(rng)
+    grid = sorted(dist.flt(10.0, 4000.0) for _ in range(3 * n + 4))
+    flagsets = [(r, via) for r in (True, False) for via in ('entry', 'loader')]
+    # 1. rebinding / slice assignment
+    for ci_, (cname, ids) in enumerate(interior_changes(n, range(n, 2 * n + 2))):
+        r, via = flagsets[(ci_ + rng.randrange(4)) % 4]
+        for form in ('assign', 'slice'):
+            pool = make_pool(ctx, cls, owner, 2 * n + 2, grid[:n] + grid[n + 2:], 0.0, False)
+            # P1 times: the first n messages ascending; a replacement in the interior (and a wholly new list) carries the time of
+            # the position it takes, an inserted message a time between its neighbours, so that the end times stay what they were
+            # wherever the kind of change allows it
+            for j, pid in enumerate(ids):
+                if pid < n:
+                    continue
+                if cname in ('replace-interior', 'all-new'):
+                    set_p1(pool[pid], grid[j])
+                elif cname == 'all-new-shorter':
+                    set_p1(pool[pid], grid[j] if j < n - 2 else grid[n - 1])
+                elif cname.startswith('insert'):
+                    before = [q for q in ids[:j] if q < n]
+                    after = [q for q in ids[j + 1:] if q < n]
+                    set_p1(pool[pid], (grid[before[-1]] + grid[after[0]]) / 2)
+                elif cname == 'prepend':
+                    set_p1(pool[pid], grid[0] / 2)
+            ops = [{'op': 'add', 'entry': 0, 'ids': list(range(n)), 'meta': True},
+                   numpy_op(0, r, True, rng.random() < 0.7, rng.random() < 0.7, via)]
+            if form == 'assign':
+                ops.append({'op': 'assign', 'entry': 0, 'ids': ids})
+            else:
+                ops.append({'op': 'slice', 'entry': 0, 'a': 0, 'b': n, 'ids': ids})
+            ops.append(numpy_op(0, rng.random() < 0.5, True, True, True, rng.choice(['entry', 'loader'])))
+            ops.append(numpy_op(0, r, rng.random() < 0.5, True, True, 'entry'))
+            ops.append({'op': 'add', 'entry': 0, 'ids': [2 * n, 2 * n + 1], 'meta': False})
+            ops.append(numpy_op(0, r, True, True, True, via))
+            yield Script([(cls, owner, pool)], ops, 'directed/%s/%s' % (cname, form))
+    # 2. in-place changes of a message
+    for what in ('mutate-interior', 'mutate-first', 'p1-interior', 'p1-first', 'p1-last', 'p1-interior-nan'):
+        pool = make_pool(ctx, cls, owner, n + 1, grid, 0.0, False)
+        pos = {'interior': n // 2, 'first': 0, 'last': n - 1}[what.split('-')[1]]
+        r, via = rng.choice(flagsets)
+        ops = [{'op': 'add', 'entry': 0, 'ids': list(range(n)), 'meta': rng.random() < 0.5}, numpy_op(0, r, True, True, True, via)]
+        if what.startswith('mutate'):
+            ops.append({'op': 'mutate', 'entry': 0, 'pos': pos, 'donor': n})
+        else:
+            v = float('nan') if what.endswith('nan') else (grid[pos] + grid[pos + 1]) / 2 if pos < n - 1 else grid[n]
+            ops.append({'op': 'set_p1', 'entry': 0, 'pos': pos, 'value': fhex(v)})
+        ops.append(numpy_op(0, r, True, True, True, rng.choice(['entry', 'loader'])))
+        yield Script([(cls, owner, pool)], ops, 'directed/' + what)
+    # 3. messages released, more added, converted again; every flag combination of the first conversion
+    for bits in range(16):
+        r, km, kb, ki = [bool(bits >> j & 1) for j in range(4)]
+        pool = make_pool(ctx, cls, owner, n + 3, grid, 0.25 if bits % 3 == 0 else 0.0, False)
+        ops = [{'op': 'add', 'entry': 0, 'ids': list(range(n)), 'meta': True}, numpy_op(0, r, km, kb, ki, 'entry' if bits % 2 else 'loader'),
+               numpy_op(0, not r, km, kb, ki, 'entry'),
+               {'op': 'add', 'entry': 0, 'ids': [n, n + 1] if bits % 4 else [n, n + 1, n + 2], 'meta': kb is False and ki is False},
+               numpy_op(0, r, True, True, True, 'entry'), numpy_op(0, r, True, True, True, 'loader')]
+        yield Script([(cls, owner, pool)], ops, 'directed/flags-%d' % bits)
+    # 4. alignment against one or two other entries between conversions (only entries with their own p1_time take part)
+    if alignable(cls) and partners:
+        for mode in ('INSERT', 'DROP'):
+            for shape in ('interior', 'edges', 'random', 'random-nan'):
+                for npart in (1, 2):
+                    ps = rng.sample(partners, min(npart, len(partners)))
+                    m = rng.choice([3, 4, 5, 6])
+                    g = grid[:m + 4]
+                    own = list(range(1, m + 1))                       # grid positions of the entry under test
+                    entries = [(cls, owner, make_pool(ctx, cls, owner, m, [g[i] for i in own], 0.2 if shape == 'random-nan' else 0.0, False))]
+                    for pc, po in ps:
+                        if shape == 'interior':
+                            # INSERT: extra epochs strictly inside; DROP: an interior epoch missing
+                            times = [g[1], (g[1] + g[2]) / 2, (g[m - 1] + g[m]) / 2, g[m]] + ([g[2]] if m > 3 else []) if mode == 'INSERT' \
+                                else [g[i] for i in own if i not in (2, 3)[:rng.choice([1, 2])]]
+                        elif shape == 'edges':
+                            times = [g[0]] + [g[i] for i in own] + [g[m + 1]] if mode == 'INSERT' else [g[i] for i in own[1:]]
+                        else:
+                            times = sorted(rng.sample(g + [(a + b) / 2 for a, b in zip(g, g[1:])], rng.randrange(1, m + 3)))
+                        entries.append((pc, po, make_pool(ctx, pc, po, len(times), sorted(times), 0.0, False)))
+                    r, via = rng.choice(flagsets)
+                    ops = [{'op': 'add', 'entry': i, 'ids': list(range(len(e[2]))), 'meta': rng.random() < 0.7} for i, e in enumerate(entries)]
+                    ops.append(numpy_op(0, r, True, True, True, via))
+                    ops.append({'op': 'align', 'mode': mode, 'types': None if rng.random() < 0.7 else list(range(len(entries)))})
+                    ops.append(numpy_op(0, r, True, True, True, 'loader' if via == 'entry' else 'entry'))
+                    ops.append(numpy_op(rng.randrange(len(entries)), not r, True, True, True, 'loader'))
+                    yield Script(entries, ops, 'directed/align-%s/%s' % (mode, shape))
+
+
+def random_script(ctx, cls, owner, partners):
+    rng = ctx.rng
+    dist = Distinct(rng)
+    grid = sorted(dist.flt(10.0, 4000.0) for _ in range(8))
+    ents = [(cls, owner)]
+    if partners and rng.random() < 0.5:
+        ents += rng.sample(partners, rng.choice([1, 2]) if len(partners) > 1 else 1)
+    nanp = rng.choice([0.0, 0.0, 0.15, 0.4])
+    mixed = rng.random() < 0.3
+    entries = []
+    for c, o in ents:
+        size = rng.randrange(4, 11)
+        times = sorted(rng.sample(grid, min(len(grid), size))) if rng.random() < 0.8 else [rng.choice(grid) for _ in range(size)]
+        entries.append((c, o, make_pool(ctx, c, o, size, times, nanp, mixed)))
+    ops = []
+    length = {}       # the generator's idea of the list lengths (alignment makes it approximate: positions are clamped at run time)
+    for i, e in enumerate(entries):
+        k0 = rng.randrange(0, min(6, len(e[2])) + 1)
+        ops.append({'op': 'add', 'entry': i, 'ids': sorted(rng.sample(range(len(e[2])), k0)), 'meta': rng.random() < 0.7})
+        length[i] = k0
+    for _ in range(rng.randrange(3, 9)):
+        i = rng.randrange(len(entries))
+        size = len(entries[i][2])
+        x = rng.random()
+        if x < 0.38:
+            ops.append(numpy_op(i, rng.random() < 0.6, rng.random() < 0.8, rng.random() < 0.7, rng.random() < 0.7, rng.choice(['entry', 'loader'])))
+        elif x < 0.5:
+            ids = [rng.randrange(size) for _ in range(rng.randrange(1, 3))]
+            ops.append({'op': 'add', 'entry': i, 'ids': ids, 'meta': rng.random() < 0.3})
+            length[i] += len(ids)
+        elif x < 0.62:
+            ids = sorted(rng.sample(range(size), rng.randrange(0, min(size, 6) + 1))) if rng.random() < 0.8 else \
+                [rng.randrange(size) for _ in range(rng.randrange(0, 6))]
+            ops.append({'op': 'assign', 'entry': i, 'ids': ids})
+            length[i] = len(ids)
+        elif x < 0.74:
+            a = rng.randrange(0, length[i] + 1)
+            b = rng.randrange(a, length[i] + 1)
+            ids = [rng.randrange(size) for _ in range(rng.randrange(0, 3))]
+            ops.append({'op': 'slice', 'entry': i, 'a': a, 'b': b, 'ids': ids})
+            length[i] += len(ids) - (b - a)
+        elif x < 0.8:
+            ops.append({'op': 'mutate', 'entry': i, 'pos': rng.randrange(0, max(1, length[i])), 'donor': rng.randrange(size)})
+        elif x < 0.86:
+            v = float('nan') if rng.random() < 0.25 else rng.choice(grid) if rng.random() < 0.5 else dist.flt(10.0, 4000.0)
+            ops.append({'op': 'set_p1', 'entry': i, 'pos': rng.randrange(0, max(1, length[i])), 'value': fhex(v)})
+        elif len(entries) > 1:
+            ops.append({'op': 'align', 'mode': rng.choice(['INSERT', 'DROP']),
+                        'types': None if rng.random() < 0.7 else sorted(rng.sample(range(len(entries)), rng.randrange(1, len(entries) + 1)))})
+    ops.append(numpy_op(0, rng.random() < 0.6, True, True, True, rng.choice(['entry', 'loader'])))
+    return Script(entries, ops, 'random')
+
+
+def sequence_scripts(ctx, reps):
+    rng = ctx.rng
+    tg = seq_targets()
+    partners_all = [(c, o) for c, o in tg if alignable(c)]
+    for cls, owner in tg:
+        partners = [(c, o) for c, o in partners_all if c is not cls]
+        for s in directed_scripts(ctx, cls, owner, partners):
+            yield s
+        for _ in range(reps):
+            yield random_script(ctx, cls, owner, partners)
+
+
+def run_sequences(ctx, classes, reps, with_model=True):
+    lines, plan = ([], []) if with_model and classes else (None, None)
+    for script in sequence_scripts(ctx, reps):
+        ctx.count('seq_' + script.how.split('/')[0])
+        run_script(ctx, classes, script, lines, plan)
+        if lines is not None and len(lines) >= 1200:
+            flush_sequences(ctx, lines, plan)
+    if lines is not None:
+        flush_sequences(ctx, lines, plan)
+
+
+def script_from_replay(r):
+    by = {c.__name__: (c, o) for c, o in targets()}
+    entries = []
+    for e in r['entries']:
+        if e['class'] not in by:
+            raise fv.InfraError('unknown class %s' % e['class'])
+        c, o = by[e['class']]
+        entries.append((c, o, [decode_obj(c, mp) for mp in e['pool']]))
+    return Script(entries, r['ops'], r.get('how', 'replay'))
 
 
 # ---- translator validation ------------------------------------------------------------------------------------------
@@ -1025,6 +1721,43 @@ def same_name_report(classes):
     return bad
 
 
+# ---- regression corpus ------------------------------------------------------------------------------------------------
+def case_from_replay(r):
+    by = {c.__name__: (c, o) for c, o in targets()}
+    if r.get('class') not in by:
+        raise fv.InfraError('unknown class %s' % r.get('class'))
+    cls, owner = by[r['class']]
+    if r.get('unpacked_from_hex') is not None:
+        msgs = []
+        for h in r['unpacked_from_hex']:
+            m = cls()
+            m.unpack(bytes.fromhex(h))
+            msgs.append(m)
+    else:
+        msgs = [decode_obj(cls, mp) for mp in r['messages']]
+    return Case(cls, owner, msgs, 'replay')
+
+
+def run_corpus(ctx, classes, limit=300):
+    """inputs of past failures (tools/corpus/C16) first: single conversions and operation sequences"""
+    batch, lines, plan = [], [], []
+    for r in fv.corpus('C16')[:limit]:
+        try:
+            if r.get('kind') == 'sequence':
+                run_script(ctx, classes, script_from_replay(r), lines, plan)
+                ctx.count('corpus_sequence')
+            else:
+                batch.append(case_from_replay(r))
+                ctx.count('corpus_case')
+        except fv.InfraError:
+            raise
+        except Exception:     # noqa  (an entry written for classes / fields that no longer exist)
+            ctx.count('corpus_entry_unreadable')
+    if batch:
+        judge_all(ctx, classes, batch)
+    flush_sequences(ctx, lines, plan)
+
+
 # ---- entry points ---------------------------------------------------------------------------------------------------
 def run(ctx, classes, reps, maxn):
     batch = []
@@ -1065,8 +1798,10 @@ def search(ctx):
                     real, err = run_real(case)
                     if err is None:
                         oracle_to_numpy(ctx, case, real)
+        run_sequences(ctx, None, 12, with_model=False)
         return
     # the oracle does not need the driver: keep going even if it cannot be built
+    run_sequences(ctx, classes, 12, with_model=False)
     for case in cases(ctx, classes, 8, 6):
         real, err = run_real(case)
         if err is not None:
@@ -1091,7 +1826,19 @@ def check(ctx):
                        'min+1, -1, 0, 1, max-1, max, 2^31-1, 2^31, 2^32-1, 2^32, 2^53+1, 2^63-1, 2^63, 2^64-1 as far as in range): '
                        'each alone, neighbouring pairs, the extremes together, all in one list, random in-range values - the '
                        'objects once with the values stored as attributes and once as unpack() returns them from packed bytes; '
-                       'integers are compared exactly (never after rounding to binary64). Non-trivial = at least one message; '
+                       'integers are compared exactly (never after rounding to binary64). OPERATION SEQUENCES on data dictionaries '
+                       'of one to three MessageData entries, for every registered class: add_message() with and without '
+                       'message_bytes/message_index, MessageData.to_numpy() / DataLoader.to_numpy() with every combination of '
+                       'remove_nan_times, keep_messages, keep_message_bytes, keep_message_index, the message list rebound '
+                       '(entry.messages = [...]) or changed in place (slice assignment): an interior / the first / the last message '
+                       'dropped, replaced, inserted, the interior reordered, messages appended or prepended, the whole list replaced '
+                       '(same or other length), emptied; a message overwritten in place (its fields, its P1 time, to NaN); '
+                       'DataLoader.time_align_data(INSERT / DROP, all or listed types) against one or two other entries with epochs '
+                       'inside, at the edges of, or scattered over the entry\'s own; more messages added; directed scripts for each '
+                       'of these between two conversions plus random scripts of 4..10 operations; after EVERY conversion the numpy '
+                       'members of each converted entry are compared with the conversion of the list it held at that moment (with '
+                       'the untimed positions removed from all of them or from none), or must be unchanged / the empty conversion when '
+                       'it held no messages. Non-trivial = at least one message; '
                        'distinct = distinct model request' % (8 if ctx.thorough else 5))
     ctx.assumptions += [
         'the extracted table (Generated/Numpy.lean) is the model of the to_numpy sources: validated on every run by evaluating it '
@@ -1099,6 +1846,10 @@ def check(ctx):
         'coverage.translator.opaque_entries and are decided by running the real code against the property only',
         'numpy array construction np.array([...]) / .T / boolean-mask indexing are modelled as list stacking, transposition and '
         'filtering (tested by the same comparison); float values are copied, never computed with, in the model',
+        'MessageData.to_numpy as a whole is modelled by Model/Numpy.lean mdToNumpy (the \'already converted?\' test on the message '
+        'count and the first and last P1 time, dict update, NaN removal): validated step by step, from the real members before '
+        'each call and the real class conversion of the current list to the real members after it; keep_message_bytes / '
+        'keep_message_index = False (members emptied by the call) are outside the model',
         'tools/props/c16.py walks object attributes and encodes them for the model (Timestamp -> its .seconds bit pattern, enum -> '
         'its integer): this encoder is in the trusted base of the correspondence, the oracle reads the objects independently']
     classes = translate(ctx)
@@ -1109,7 +1860,9 @@ def check(ctx):
     if classes is not None:
         try:
             validate_translator(ctx, classes)
+            run_corpus(ctx, classes)
             run(ctx, classes, 24 if ctx.thorough else 8, 8 if ctx.thorough else 5)
+            run_sequences(ctx, classes, 30 if ctx.thorough else 6)
         except fv.InfraError:
             if not ctx.proof_failures:
                 raise
@@ -1121,19 +1874,19 @@ def replay(ctx, path):
     r = obj['input']
     classes = translate(ctx)
     ctx._classes = classes
-    cls = next((c for c, _ in targets() if c.__name__ == r['class']), None)
-    if cls is None:
-        raise fv.InfraError('unknown class %s' % r['class'])
-    owner = next(o for c, o in targets() if c is cls)
-    if r.get('unpacked_from_hex') is not None:
-        msgs = []
-        for h in r['unpacked_from_hex']:
-            m = cls()
-            m.unpack(bytes.fromhex(h))
-            msgs.append(m)
-    else:
-        msgs = [decode_obj(cls, mp) for mp in r['messages']]
-    case = Case(cls, owner, msgs, 'replay')
+    if r.get('kind') == 'sequence':
+        script = script_from_replay(r)
+        lines, plan = [], []
+        run_script(ctx, classes, script, lines if classes is not None else None, plan)
+        try:
+            flush_sequences(ctx, lines, plan)
+        except fv.InfraError:
+            pass
+        for sig, desc, _ in ctx.violations[:5]:
+            print('replayed: %s: %s' % (sig, desc))
+        return fv.finish(ctx, 'proof', None)
+    case = case_from_replay(r)
+    cls = case.cls
     done = False
     if classes is not None:
         try:
